@@ -1,6 +1,10 @@
-"""C03 - checksum is the Mode S parity syndrome (table rule; interpreter rules are added below it)."""
+"""C03 - checksum is the Mode S parity syndrome."""
 from .. import facts
+from ..ai.values import IntVal, ZERO
+from ..ai.pathcond import PathCond
 from ..ref import crc as refcrc
+from ..ref import layout as L
+from .common import decode_paths, rng_str
 
 
 def table_rule(rep, prog):
@@ -28,7 +32,66 @@ def table_rule(rep, prog):
     rep.floor("crc-table-entries", 256, len(vals))
 
 
+def syndrome_rule(rep, prog, nbytes_list):
+    rid = rep.rule("R2-R4", "Frame.crc, as GF(2)-affine forms over the frame bits, equals the syndrome M(x) mod 0x1FFF409 of the first 56/112 bits on every grammar path "
+                            "(covers the byte step, loop bounds, tail XOR, the checksum window across identifier re-reads and the length selection)")
+    ref = {56: refcrc.syndrome_bits(56), 112: refcrc.syndrome_bits(112)}
+    n_paths = 0
+    for nb in nbytes_list:
+        run, oks, errs = decode_paths(prog, nb)
+        for p in oks:
+            n_paths += 1
+            crc = p.crc
+            lens = set(L.frame_bits(i) for i in p.ids)
+            what = "%s|N=%d" % (p.label, nb)
+            if len(lens) != 1:
+                rep.violation("R2-R4", "%s:mixed-lengths" % p.label, "grammar path %s covers DF ids of both lengths %s" % (p.label, p.ids))
+                continue
+            Lb = lens.pop()
+            rep.instance(rid, what, sample={"path": p.label, "frame_bits": Lb, "crc_bit0": _bx(crc, 0)} if n_paths in (1, 40) else None)
+            if not isinstance(crc, IntVal) or crc.bits is None or any(e is None for e in crc.bits):
+                rep.violation("R2-R4", "%s:crc-inexact" % p.label.split("/")[0],
+                              "checksum on path %s is not an exact GF(2) form (%r): the routine is no longer analysable as a linear map" % (p.label, crc))
+                continue
+            bad = []
+            pc = PathCond()
+            for f in p.facts:
+                if f[0] == "lin":
+                    pc.add_lin(f[1], f[2], record=False)
+            for j in range(len(crc.bits)):
+                want = (ref[Lb][j], 0) if j < 24 else ZERO
+                if pc.reduce(crc.bits[j]) != pc.reduce(want):
+                    bad.append(j)
+            if bad:
+                j = bad[0]
+                got = crc.bits[j]
+                want = ref[Lb][j] if j < 24 else 0
+                diff = got[0] ^ want
+                from ..ai.values import mask_atoms
+                rep.violation("R2-R4", "%s:syndrome-mismatch" % p.label.split("/")[0],
+                              "checksum bit(s) %s on path %s differ from the syndrome of f[0..%d): e.g. bit %d differs in frame bits %s%s"
+                              % (bad[:6], p.label, Lb, j, mask_atoms(diff)[:12], " and a constant" if got[1] else ""),
+                              detail={"path": p.label, "bits": bad})
+    rep.floor("grammar paths with a checksum", 60, n_paths)
+
+
+def _bx(v, j):
+    from ..ai.values import bx_str
+    if isinstance(v, IntVal) and v.bits is not None:
+        s = bx_str(v.bits[j])
+        return s[:80]
+    return "?"
+
+
 def run(rep, tier, replay=None):
     prog = facts.load("std")
     table_rule(rep, prog)
-    return rep.finish("R1: the evaluated 256-entry remainder table equals the table derived from generator 0x1FFF409 (all 256 entries).")
+    syndrome_rule(rep, prog, [14] if tier == "quick" else [7, 14, 16])
+    rep.assume("the <=5-bit-error / <=24-bit-burst detection clause is a mathematical consequence of the generator polynomial and is not machine-checked")
+    rep.assume("deku reader semantics and Vec/slice operations as summarised in analysis/ai")
+    return rep.finish(
+        "R1: the evaluated 256-entry table equals the remainder table of generator 0x1FFF409 (and is GF(2)-affine in its index, which the "
+        "interpreter re-verifies before using it). R2-R4: abstract interpretation of Frame::from_bytes with every frame bit an atom yields "
+        "Frame.crc as 24 XOR-forms over the 56/112 frame bits on every grammar path; each form must equal the reference syndrome "
+        "M(x) mod G. This decides the byte step, masks, loop range, tail XOR, the reconstruction of the checksum window across identifier "
+        "re-reads and the format-dependent length, for all frames at once.")
